@@ -61,6 +61,19 @@ Theorem C10_no_stale : forall NH : bytes -> list entry -> bytes,
 Proof. exact no_stale. Qed.
 Print Assumptions C10_no_stale.
 
+(* The derived identifier: swhid() of a Directory / Content node answers with the
+   hash as object id ([OSwhid n]; the generic classes have no such method), so
+   after any guarded history it is the from-scratch hash - whichever of hash,
+   swhid, entries, to_model, collect is read first after a mutation. *)
+Theorem C10_swhid_fresh : forall (NH : bytes -> list entry -> bytes) (h : list op) (n : nat) (x : node),
+  guarded NH true false [] h ->
+  let s := final NH true false [] h in
+  guard NH true false s (OSwhid n) -> nth_error s n = Some x -> kind x = KDir \/ kind x = KContent ->
+  exists hv, snd (step NH true false s (OSwhid n)) = OutHash hv /\
+             Fresh NH (fst (step NH true false s (OSwhid n))) n hv /\ Fresh NH s n hv.
+Proof. exact swhid_fresh. Qed.
+Print Assumptions C10_swhid_fresh.
+
 (* No operation of a guarded history can run out of fuel: the path-key lookups
    of Directory (__getitem__, __contains__) never do, in any state (each level
    of key.split(b"/", 1) strictly shortens the key), and after ANY guarded
